@@ -3399,6 +3399,8 @@ func (s *ImmuStore) readValueAt(b []byte, off int64, hvalue [sha256.Size]byte, s
 		return 0, io.EOF // it means value was not stored on any vlog i.e. a truncated transaction was replicated
 	}
 
+	readFromVLog := false
+
 	if len(b) > 0 {
 		foundInTheCache := false
 
@@ -3406,9 +3408,14 @@ func (s *ImmuStore) readValueAt(b []byte, off int64, hvalue [sha256.Size]byte, s
 			val, err := s.vLogCache.Get(off)
 			if err == nil {
 				bval := val.([]byte) // the requested value was found in the value cache
-				copy(b, bval)
-				n = len(bval)
-				foundInTheCache = true
+				if len(bval) == len(b) {
+					copy(b, bval)
+					n = len(bval)
+					foundInTheCache = true
+				}
+				// an entry of a different length belongs to a value that was never
+				// persisted at that offset (e.g. a transaction recovered without its
+				// values whose range was reused): read from the value log instead
 			} else if !errors.Is(err, cache.ErrKeyNotFound) {
 				return 0, err
 			}
@@ -3429,15 +3436,7 @@ func (s *ImmuStore) readValueAt(b []byte, off int64, hvalue [sha256.Size]byte, s
 				return n, err
 			}
 
-			if s.vLogCache != nil {
-				cb := make([]byte, n)
-				copy(cb, b)
-
-				_, _, err = s.vLogCache.Put(off, cb)
-				if err != nil {
-					return n, err
-				}
-			}
+			readFromVLog = true
 		}
 	}
 
@@ -3446,6 +3445,17 @@ func (s *ImmuStore) readValueAt(b []byte, off int64, hvalue [sha256.Size]byte, s
 
 	if !skipIntegrityCheck && (len(b) != n || hvalue != sha256.Sum256(b[:n])) {
 		return n, fmt.Errorf("%w: value length or digest mismatch", ErrCorruptedData)
+	}
+
+	if readFromVLog && s.vLogCache != nil {
+		// only values that passed validation are cached
+		cb := make([]byte, n)
+		copy(cb, b)
+
+		_, _, err = s.vLogCache.Put(off, cb)
+		if err != nil {
+			return n, err
+		}
 	}
 
 	return n, nil
